@@ -7,7 +7,7 @@
    (index.reshape((-1, max_offset+1))[i]).  The functions are polymorphic in the row type:
    they can only move rows around. *)
 From Coq Require Import List Bool ZArith Arith.
-From PC Require Import Base.Outcome Base.Py Base.PySlice Gen.Strips.
+From PC Require Import Base.Outcome Base.Py Base.PySlice Base.NpProg Gen.Strips Gen.Triangulate.
 Import ListNotations.
 Local Open Scope nat_scope.
 
@@ -59,13 +59,22 @@ Definition reshape {A} (k : nat) (l : list A) : outcome (list (list A)) :=
   if Nat.eqb k 0 then Raise PyValueError
   else if Nat.eqb (length l mod k) 0 then Ok (chunk k l) else Raise PyValueError.
 
-(* ---- TriangleSet.load for <tristrips> / <trifans>: every <p> is reshaped to rows of
-   max_offset+1 indices, expanded on its own, the blocks are concatenated in document order;
-   any exception inside the loop becomes DaeMalformedError; no <p> at all is DaeIncompleteError *)
+(* ---- TriangleSet.load for <tristrips> / <trifans> (iteration order, reshape width, concatenation
+   order and the tag -> function table are those of Gen/Triangulate.v): every <p> is reshaped to
+   rows of load_cols(max_offset) indices, expanded on its own by _indexExtendFunctions[tag], the
+   blocks are concatenated; any exception inside the loop becomes DaeMalformedError; no <p> at
+   all is DaeIncompleteError *)
 Inductive kind := KStrips | KFans.
 
+Definition ext_of (kd : kind) : ext_fn :=
+  match kd with KStrips => load_tristrips | KFans => load_trifans end.
+
 Definition extend {A} (kd : kind) (rows : list A) : outcome (list (list (tri A))) :=
-  match kd with KStrips => extend_strip rows | KFans => extend_fan rows end.
+  match ext_of kd with
+  | EStrip => extend_strip rows
+  | EFan => extend_fan rows
+  | ENone => Raise PyOther      (* the <triangles> path (first <p> only); not the subject of C11 *)
+  end.
 
 Fixpoint load_loop {A} (kd : kind) (k : nat) (ps : list (list A)) (indexlist : list (list (tri (list A))))
   : outcome (list (list (tri (list A)))) :=
@@ -75,11 +84,12 @@ Fixpoint load_loop {A} (kd : kind) (k : nat) (ps : list (list A)) (indexlist : l
               obind (extend kd rows) (fun blocks => load_loop kd k r (indexlist ++ blocks)))
   end.
 
-Definition load_expand {A} (kd : kind) (k : nat) (ps : list (list A)) : outcome (list (tri (list A))) :=
+Definition load_expand {A} (kd : kind) (max_offset : nat) (ps : list (list A)) : outcome (list (tri (list A))) :=
   match ps with
   | [] => Raise DaeIncomplete
-  | _ => match load_loop kd k ps [] with
-         | Ok il => Ok (concat il)
+  | _ => match load_loop kd (Z.to_nat (load_cols (Z.of_nat max_offset)))
+                         (if load_iter_reversed then rev ps else ps) [] with
+         | Ok il => Ok (concat (if load_concat_reversed then rev il else il))
          | Raise _ => Raise DaeMalformed
          end
   end.
